@@ -12,18 +12,20 @@ import (
 
 // specProp is the common skeleton of the spec-lab monitors.
 type specProp struct {
-	id         string
-	nQuick     int
-	nThorough  int
-	cmd        string // gleece generate <cmd>
-	floor      float64
-	rule       string
-	assume     []string
-	gen        func(c *orch.Ctx, i int) *synth.Project
-	check      func(res *report.Result, sr *SpecRun, dist *report.Distincter) // accepted projects only
-	checkAny   func(res *report.Result, sr *SpecRun, dist *report.Distincter) // every project (optional)
-	finish     func(res *report.Result, runs []*SpecRun)
-	judgeEvery bool
+	id        string
+	nQuick    int
+	nThorough int
+	cmd       string // gleece generate <cmd>
+	floor     float64
+	rule      string
+	assume    []string
+	gen       func(c *orch.Ctx, i int) *synth.Project
+	check     func(res *report.Result, sr *SpecRun, dist *report.Distincter) // accepted projects only
+	checkAny  func(res *report.Result, sr *SpecRun, dist *report.Distincter) // every project (optional)
+	finish    func(res *report.Result, runs []*SpecRun)
+	// replayCompanion: a second project a replayed case needs next to the stored one (metamorphic pairs)
+	replayCompanion func(p *synth.Project) *synth.Project
+	judgeEvery      bool
 }
 
 func genFromProfile(id, profile string, tweak func(i int, p *synth.Profile)) func(c *orch.Ctx, i int) *synth.Project {
@@ -62,6 +64,11 @@ func runSpecProp(c *orch.Ctx, sp specProp) (*report.Result, error) {
 			return nil, fmt.Errorf("replay file has no project")
 		}
 		projects = []*synth.Project{rc.Project}
+		if sp.replayCompanion != nil {
+			if q := sp.replayCompanion(rc.Project); q != nil {
+				projects = append(projects, q)
+			}
+		}
 	} else {
 		for i := 0; i < n; i++ {
 			projects = append(projects, sp.gen(c, i))
